@@ -132,6 +132,15 @@ def schedules(R: Run):
     from . import c18_sched as S
 
     procs = max(1, min(14, (os.cpu_count() or 2) - 2))
+    pool = S.make_pool(procs) if procs > 1 else None  # forked once, before any scheduler thread exists
+    try:
+        _schedules(R, S, procs, pool)
+    finally:
+        if pool is not None:
+            pool.terminate()
+
+
+def _schedules(R: Run, S, procs, pool):
     CW = frozenset(S.COARSE | {"wr"})
     NOGC = frozenset(S.COARSE | {"rd", "wr", "sget"})  # everything but get_client(), which is thread-local
     C2 = frozenset({"acq", "create", "upload", "complete", "vget"})
@@ -155,9 +164,9 @@ def schedules(R: Run):
     def exhaustive(variant, kinds, workers, coarse, tag, gate=False, oracle=True):
         # wall-clock valve per configuration, far above what the unchanged protocol needs; once the protocol is
         # known to have changed (failing input or model mismatch), later configurations are only sampled
-        budget = 2 if (R.oracle_failures or hot["on"]) else R.pick(15, 240)
+        budget = 2 if (R.oracle_failures or hot["on"]) else R.pick(30, 240)
         n0 = len(R.lines)
-        obs, truncated = S.enumerate_all(kinds, workers, coarse, procs=procs, gate_fin=gate, budget_s=budget)
+        obs, truncated = S.enumerate_all(kinds, workers, coarse, procs=procs, gate_fin=gate, budget_s=budget, pool=pool)
         if truncated:
             R.notes.append(f"enumeration truncated for {variant} {kinds} {workers} ({tag}): more interleavings "
                            "than the unchanged protocol has")
@@ -170,7 +179,7 @@ def schedules(R: Run):
         if R.oracle_failures or hot["on"]:
             n = min(n, 60)
         seeds = [R.rng.randrange(1 << 60) for _ in range(n)]
-        for o in S.random_runs(kinds, workers, seeds, procs=procs, gate_fin=gate):
+        for o in S.random_runs(kinds, workers, seeds, procs=procs, gate_fin=gate, pool=pool):
             check_run(R, variant, kinds, workers, gate, o, "random-fine", oracle)
 
     # ---- in-process variant: every interleaving of two threads at the finest granularity
@@ -178,7 +187,7 @@ def schedules(R: Run):
     exhaustive("local", ["w1", "w2"], None, NOGC if R.quick else None, "nogc" if R.quick else "fine")
     # a write racing with a finalise
     exhaustive("local", ["w1", "f"], None, NOGC if R.quick else None, "nogc" if R.quick else "fine")
-    exhaustive("local", ["w1", "w2", "f"], None, NOGC, "nogc-gated", gate=True)  # two writes, then the finalise
+    exhaustive("local", ["w1", "w2", "f"], None, CW if R.quick else NOGC, "gated", gate=True)  # two writes, then the finalise
     exhaustive("local", ["w3", "w1", "w2"], None, C2 if R.quick else frozenset(C2 | {"ssd", "sset"}), "coarse")
     exhaustive("local", ["w1", "w2", "f"], None, C2 if R.quick else CW, "coarse")  # racing finalise
     # ---- cluster variant
@@ -270,6 +279,13 @@ def _fault_open(limit: int):
     return fopen
 
 
+class FaultPath(type(Path())):  # module level: copies of a sink holding such paths must pickle
+    _fopen = None
+
+    def open(self, mode="r", buffering=-1, encoding=None, errors=None, newline=None):
+        return type(self)._fopen(self, mode, buffering, encoding, errors, newline)
+
+
 class _short_writes:
     """context: every file `odc.geo.cog._mpu_fs` opens for writing (through `open` or
     `Path.open`) sits on a `_ShortRaw`; nothing in odc-geo is edited"""
@@ -283,11 +299,7 @@ class _short_writes:
         from odc.geo.cog import _mpu_fs
 
         fopen = _fault_open(self.limit)
-
-        class FaultPath(type(Path())):  # pylint: disable=too-few-public-methods
-            def open(self, mode="r", buffering=-1, encoding=None, errors=None, newline=None):
-                return fopen(self, mode, buffering, encoding, errors, newline)
-
+        FaultPath._fopen = staticmethod(fopen)
         self._mod = _mpu_fs
         self._old_path = _mpu_fs.Path
         _mpu_fs.open = fopen
@@ -302,9 +314,11 @@ class _short_writes:
 
 
 def sink_case(R: Run, root: Path, writes, plist, keep: bool, base_kind: str, tag: str,
-              short: Optional[int] = None):
+              short: Optional[int] = None, copy_how: Optional[str] = None, copy_when: str = "before"):
     """writes: list of (part, str) in write order; plist: part numbers handed to finalise;
-    short: None, or the number of bytes a raw write accepts per call (short-write fault model)"""
+    short: None, or the number of bytes a raw write accepts per call (short-write fault model);
+    copy_how: None, or "pickle" | "copy" | "deepcopy": the parts are written and the file is finalised through
+    copies of the sink, taken before its first use or after its first write"""
     from odc.geo.cog._mpu_fs import MPUFileSink
 
     work = Path(tempfile.mkdtemp(dir=root))
@@ -322,10 +336,15 @@ def sink_case(R: Run, root: Path, writes, plist, keep: bool, base_kind: str, tag
             return real_()
 
     def real_():
+        from .c18_sched import clone
+
         sink = MPUFileSink(dst, parts_base=base)
+        orig = sink
         recs: Dict[int, Dict[str, Any]] = {}
         pdir = None
-        for p, d in writes:
+        for i, (p, d) in enumerate(writes):
+            if copy_how and ((copy_when == "before" and i == 0) or (copy_when == "after" and i == 1)):
+                sink = clone(orig, copy_how)
             r = sink(p, d.encode())
             assert r["PartNumber"] == p and r["Size"] == len(d)
             recs[p] = r
@@ -335,6 +354,8 @@ def sink_case(R: Run, root: Path, writes, plist, keep: bool, base_kind: str, tag
         state["pdir"] = pdir
         parts = [recs.get(p, {"PartNumber": p, "Path": str(pdir / f"p{p:04d}.bin"), "Size": 0}) for p in plist]
         err = "ok"
+        if copy_how:
+            sink = clone(sink, copy_how)  # the finalise task gets its own copy
         try:
             out = sink.finalise(parts, keep_parts=keep)
             assert Path(out) == dst
@@ -356,11 +377,13 @@ def sink_case(R: Run, root: Path, writes, plist, keep: bool, base_kind: str, tag
         return (f"{err} ; dst{'N' if content is None else '=' + content} ; "
                 f"parts={list_s([f'{p}:{d}' for p, d in left])} ; dir={'T' if pdir.exists() else 'F'}")
 
-    R.corr(line, real, sig=f"sink|{tag}|keep={keep}|{base_kind}|{'short-writes' if short else 'plain'}")
+    R.corr(line, real, sig=f"sink|{tag}|keep={keep}|{base_kind}|{'short-writes' if short else 'plain'}"
+           + (f"|via-{copy_how}-{copy_when}" if copy_how else ""))
     # ---- property oracle (no model): listed parts distinct and all written
     last = dict(writes)
     if state and plist and len(set(plist)) == len(plist) and all(p in last for p in plist):
-        case = {"writes": writes, "parts": plist, "keep": keep, "base": base_kind, "short_write": short}
+        case = {"writes": writes, "parts": plist, "keep": keep, "base": base_kind, "short_write": short,
+                "copy_how": copy_how, "copy_when": copy_when}
         want = "".join(last[p] for p in plist)
         complete = set(plist) == set(last)
         okerr = state["err"] == "ok" or (state["err"] == "ERR:OSError" and not keep and not complete)
@@ -394,7 +417,9 @@ def sink_cases(R: Run, root: Path):
                 for keep in (False, True):
                     k += 1
                     sink_case(R, root, writes, list(order), keep, ("none", "dir", "nested")[k % 3],
-                              "all-parts" + ("|empty-part" if 0 in sv else ""), short=(None, 1, 2, None, 5)[k % 5])
+                              "all-parts" + ("|empty-part" if 0 in sv else ""), short=(None, 1, 2, None, 5)[k % 5],
+                              copy_how=(None, "pickle", None, "deepcopy", None, "copy", None)[k % 7],
+                              copy_when=("before", "after")[(k // 7) % 2])
     # random: 1..6 parts, arbitrary part numbers, overwrites, permutations, subsets, duplicates, unknown parts
     for _ in range(R.pick(300, 3000)):
         n = rng.randint(1, 6)
@@ -414,7 +439,8 @@ def sink_cases(R: Run, root: Path):
         elif kind == "empty":
             plist = []
         sink_case(R, root, writes, plist, rng.random() < 0.4, rng.choice(["none", "dir", "nested"]), kind,
-                  short=rng.choice([None, None, 1, 3, 16, 4096]))
+                  short=rng.choice([None, None, 1, 3, 16, 4096]),
+                  copy_how=rng.choice([None, None, "pickle", "deepcopy", "copy"]), copy_when=rng.choice(["before", "after"]))
     # big parts (several pages) next to an empty one
     big = data(3) * 3000
     sink_case(R, root, [(1, big), (2, ""), (3, big[:5000])], [1, 2, 3], False, "none", "big|empty-part")
@@ -436,6 +462,15 @@ def sink_cases(R: Run, root: Path):
 
 # ------------------------------------------------------------------ limits
 KW = ["min_write_sz", "max_write_sz", "min_part", "max_part"]
+
+
+def guarded_clone(obj, how):
+    from .c18_sched import clone
+
+    try:
+        return clone(obj, how)
+    except Exception as e:  # pylint: disable=broad-except
+        return e  # accessors on it raise -> reported by the callers
 
 
 def limit_cases(R: Run, root: Path):
@@ -467,6 +502,12 @@ def limit_cases(R: Run, root: Path):
         got = {a: getattr(obj, a) for a in KW}
         R.oracle(got == s3_doc, "limits:s3-limit-differs-from-s3-api", {"writer": nm},
                  f"{nm} reports {got}, S3 multipart limits are {s3_doc}")
+        for how in ("pickle", "copy", "deepcopy"):
+            cp = guarded_clone(obj, how)
+            R.corr("c18 limits s3", lambda: fmt(cp), sig=f"limits|s3|{how}")
+            gotc = guarded(lambda: str({a: getattr(cp, a) for a in KW}))
+            R.oracle(gotc == str(s3_doc), "limits:copy-reports-other-limits", {"writer": nm, "how": how, "kw": {}},
+                     f"{how} copy of {nm} reports {gotc}, original {got}")
 
     dflt = _mpu_fs.MPUFileSink(root / "x.bin")
     got_d = {a: getattr(dflt, a) for a in KW}
@@ -497,6 +538,16 @@ def limit_cases(R: Run, root: Path):
                     got = guarded(lambda: getattr(sink, a))
                     R.oracle(got == want, "limits:accessor-ignores-own-keyword", {**case, "accessor": a},
                              f"MPUFileSink(dst, **{kw}).{a} = {got}, configured {want}", trivial=(a not in kw))
+                # every copy a scheduler / user code can make reports what the original was configured with
+                want_all = {a: kw.get(a, getattr(dflt, a)) for a in KW}
+                for how in ("pickle", "copy", "deepcopy"):
+                    cp = guarded_clone(sink, how)
+                    R.corr(line, lambda: fmt(cp), sig=f"limits|sink|{len(subset)}kw|{how}")
+                    gotc = guarded(lambda: str({a: getattr(cp, a) for a in KW}))
+                    R.oracle(gotc == str(want_all), "limits:copy-reports-other-limits",
+                             {"writer": "MPUFileSink", "how": how, "kw": kw},
+                             f"{how} copy of MPUFileSink(dst, **{kw}) reports {gotc}, configured {want_all}",
+                             trivial=not kw)
                 cfg = {a: kw.get(a, getattr(dflt, a)) for a in KW}
                 if cfg["min_write_sz"] < cfg["max_write_sz"] and cfg["min_part"] < cfg["max_part"]:
                     got = {a: guarded(lambda: getattr(sink, a)) for a in KW}
@@ -568,14 +619,25 @@ def replay(R: Run, rec) -> int:
         try:
             probe = Run(R.prop, R.tier, R.seed)
             sink_case(probe, root, [tuple(w) for w in case["writes"]], case["parts"], case["keep"], case["base"],
-                      "replay", short=case.get("short_write"))
+                      "replay", short=case.get("short_write"), copy_how=case.get("copy_how"),
+                      copy_when=case.get("copy_when", "before"))
             print("real :", probe.real[0])
             for f in probe.oracle_failures:
                 print("FAILS:", f["key"], "-", f["what"])
             return 1 if probe.oracle_failures else 0
         finally:
             shutil.rmtree(root, ignore_errors=True)
-    if key in ("limits:s3-limit-differs-from-s3-api", "limits:sink-default-differs", "limits:s3-max-not-above-min",
+    if key == "limits:copy-reports-other-limits" and case.get("writer") == "MPUFileSink":
+        from odc.geo.cog import _mpu_fs
+        from .c18_sched import clone
+
+        kw = case.get("kw", {})
+        sink = _mpu_fs.MPUFileSink("/nonexistent/x.bin", **kw)
+        got = {a: getattr(clone(sink, case["how"]), a) for a in KW}
+        want = {a: getattr(sink, a) for a in KW}
+        print(f"{case['how']} copy of MPUFileSink(dst, **{kw}) reports {got}; original {want}")
+        return 0 if got == want else 1
+    if key in ("limits:copy-reports-other-limits", "limits:s3-limit-differs-from-s3-api", "limits:sink-default-differs", "limits:s3-max-not-above-min",
                "limits:sink-default-max-not-above-min", "limits:writer-lacks-accessor"):
         root = Path(tempfile.mkdtemp(prefix="c18-"))
         try:
